@@ -443,6 +443,24 @@ Proof.
 Qed.
 Print Assumptions C18_refines_memory_store_fresh.
 
+(* what the model takes from the Go source through the translator (Generated/GC18.v,
+   regenerated on every run): FileStore.Put's guards in their order, and that these
+   guards together mean "no colon in the username; address and tokens valid
+   UTF-8"; ToHostname's TrimPrefix sequence and Cut byte.  An edit of Put,
+   validateCredentialFormat or ToHostname changes the generated tables and breaks
+   these equations (or the translation itself) *)
+Theorem C18_put_guards_from_source :
+  fileStorePut_guards = [b "DisablePut"; b "call:validateCredentialFormat"; b "utf8:serverAddress"] /\
+  forall a c, put_accepts a c =
+              negb (contains colon (c_user c)) && valid_utf8 a && valid_utf8 (c_refresh c) && valid_utf8 (c_access c).
+Proof. exact (conj put_guards_order put_accepts_spec). Qed.
+Print Assumptions C18_put_guards_from_source.
+
+Theorem C18_to_hostname_from_source :
+  forall addr, to_hostname addr = cut_before slash (trim_prefix (b "https://") (trim_prefix (b "http://") addr)).
+Proof. exact to_hostname_spec. Qed.
+Print Assumptions C18_to_hostname_from_source.
+
 (* encoding/json's string codec (Model/Json.v: appendString with HTML escaping,
    unquote with its lossy repairs) is part of the model: every valid UTF-8
    string -- control characters, quotes, <>&, U+2028/9, any plane -- written as a
